@@ -154,7 +154,7 @@ def run():
     rng = random.Random(SEED * 7919 + 6)
     # (1) model checking
     mc = common.tlc_mc("MC_TreeCursor", cfg="MC_TreeCursor" if QUICK else "MC_TreeCursor_thorough",
-                       timeout=300 if QUICK else 3000)
+                       timeout=3000)
     chk.add_tlc(mc)
     chk.extra["mc"] = dict(states=mc["states"], transitions=mc["transitions"], wall=round(mc["wall"], 1),
                            config="MC_TreeCursor.cfg" if QUICK else "MC_TreeCursor_thorough.cfg", completed=mc["ok"])
@@ -182,7 +182,7 @@ def run():
             for a in pick:
                 fh.write(json.dumps(a) + "\n")
         beh, _ = common.tlc_simulate_json("Sim_TreeCursor", num=20 if QUICK else 400, depth=11, seed=SEED + 1,
-                                          timeout=600 if QUICK else 3000, env={"SIMTS": os.path.join(tmpd, "ts.ndjson")})
+                                          timeout=3000, env={"SIMTS": os.path.join(tmpd, "ts.ndjson")})
     finally:
         shutil.rmtree(tmpd, ignore_errors=True)
     nsteps = 0
